@@ -272,36 +272,55 @@ func ruleReorderGuard(p *Prog, r *Result) {
 	ops := p.typedConsts("Operator")
 	n := 0
 	for _, fn := range p.methodsOf(t) {
-		// stores to Left/Right of a *BinaryOpExpr that is a parameter (re-association), not of fresh nodes
-		var stores []*ssa.Store
-		allInstrs(fn, func(in ssa.Instruction) {
-			st, ok := in.(*ssa.Store)
-			if !ok {
-				return
-			}
-			o, f, base, ok := fieldOfAddr(st.Addr)
-			if !ok || o == nil || o.Obj().Name() != "BinaryOpExpr" || (f != "Left" && f != "Right") {
-				return
-			}
-			if _, isParam := base.(*ssa.Parameter); !isParam {
-				return
-			}
-			// re-association = the new operand is taken from the *inner* node or is a fresh BinaryOpExpr
-			inner := mentions(st.Val, func(v ssa.Value) bool {
-				if al, ok := v.(*ssa.Alloc); ok && typeName(al.Type()) == "BinaryOpExpr" {
-					return true
+		// stores to Left/Right of a *BinaryOpExpr that is a parameter (re-association), not of fresh nodes;
+		// a store made inside a local closure counts at the closure's call sites
+		type rstore struct {
+			st  *ssa.Store
+			ctx []*ssa.BasicBlock // blocks of fn in which the store happens (its own block, or the closure's call sites)
+		}
+		var stores []rstore
+		scan := func(f *ssa.Function, ctx func(*ssa.Store) []*ssa.BasicBlock) {
+			allInstrs(f, func(in ssa.Instruction) {
+				st, ok := in.(*ssa.Store)
+				if !ok {
+					return
 				}
-				if o2, f2, b2, ok := loadedField(v); ok && o2 != nil && o2.Obj().Name() == "BinaryOpExpr" && (f2 == "Left" || f2 == "Right") {
-					if _, isP := b2.(*ssa.Parameter); !isP {
+				o, fl, base, ok := fieldOfAddr(st.Addr)
+				if !ok || o == nil || o.Obj().Name() != "BinaryOpExpr" || (fl != "Left" && fl != "Right") {
+					return
+				}
+				if _, isParam := cellRoot(base).(*ssa.Parameter); !isParam {
+					return
+				}
+				// re-association = the new operand is taken from the *inner* node or is a fresh BinaryOpExpr
+				inner := mentions(st.Val, func(v ssa.Value) bool {
+					if al, ok := v.(*ssa.Alloc); ok && typeName(al.Type()) == "BinaryOpExpr" {
 						return true
 					}
+					if o2, f2, b2, ok := loadedField(v); ok && o2 != nil && o2.Obj().Name() == "BinaryOpExpr" && (f2 == "Left" || f2 == "Right") {
+						if _, isP := cellRoot(b2).(*ssa.Parameter); !isP {
+							return true
+						}
+					}
+					return false
+				}, 4)
+				if inner {
+					stores = append(stores, rstore{st, ctx(st)})
 				}
-				return false
-			}, 4)
-			if inner {
-				stores = append(stores, st)
-			}
-		})
+			})
+		}
+		scan(fn, func(st *ssa.Store) []*ssa.BasicBlock { return []*ssa.BasicBlock{st.Block()} })
+		for _, af := range fn.AnonFuncs {
+			var sites []*ssa.BasicBlock
+			allInstrs(fn, func(in ssa.Instruction) {
+				if c, ok := in.(ssa.CallInstruction); ok {
+					if mc, ok := c.Common().Value.(*ssa.MakeClosure); ok && mc.Fn == ssa.Value(af) {
+						sites = append(sites, in.Block())
+					}
+				}
+			})
+			scan(af, func(*ssa.Store) []*ssa.BasicBlock { return sites })
+		}
 		if len(stores) == 0 {
 			continue
 		}
@@ -313,15 +332,17 @@ func ruleReorderGuard(p *Prog, r *Result) {
 		}
 		isOuterOp := func(v ssa.Value) bool {
 			o, f, base, ok := loadedField(v)
-			return ok && o != nil && o.Obj().Name() == "BinaryOpExpr" && f == "Op" && base == e
+			return ok && o != nil && o.Obj().Name() == "BinaryOpExpr" && f == "Op" && cellRoot(base) == e
 		}
 		allowed := map[string]bool{"Add": true, "Mul": true}
 		for v, name := range ops {
 			reach := walkAssuming(fn, decideEqConst(isOuterOp, v))
 			reached := false
-			for _, st := range stores {
-				if reach[st.Block()] {
-					reached = true
+			for _, rs := range stores {
+				for _, b := range rs.ctx {
+					if reach[b] {
+						reached = true
+					}
 				}
 			}
 			if allowed[name] {
@@ -331,19 +352,26 @@ func ruleReorderGuard(p *Prog, r *Result) {
 			r.add(!reached, fmt.Sprintf("%s|op|%s", p.FName(fn), name), p.Pos(fn.Pos()), fmt.Sprintf("re-association must be unreachable for operator %s (only + and * are associative)", name))
 		}
 		// inner operator equals outer operator
-		for i, st := range stores {
-			eq := false
-			for _, a := range dominatingAtoms(st.Block()) {
-				if a.Op != token.EQL {
-					continue
+		for i, rs := range stores {
+			st := rs.st
+			eq := len(rs.ctx) > 0
+			for _, cb := range rs.ctx {
+				here := false
+				for _, a := range dominatingAtoms(cb) {
+					if a.Op != token.EQL {
+						continue
+					}
+					xo, yo := isOuterOp(a.X), isOuterOp(a.Y)
+					isInnerOp := func(v ssa.Value) bool {
+						o, f, base, ok := loadedField(v)
+						return ok && o != nil && o.Obj().Name() == "BinaryOpExpr" && f == "Op" && cellRoot(base) != e
+					}
+					if (xo && isInnerOp(a.Y)) || (yo && isInnerOp(a.X)) {
+						here = true
+					}
 				}
-				xo, yo := isOuterOp(a.X), isOuterOp(a.Y)
-				isInnerOp := func(v ssa.Value) bool {
-					o, f, base, ok := loadedField(v)
-					return ok && o != nil && o.Obj().Name() == "BinaryOpExpr" && f == "Op" && base != e
-				}
-				if (xo && isInnerOp(a.Y)) || (yo && isInnerOp(a.X)) {
-					eq = true
+				if !here {
+					eq = false
 				}
 			}
 			n++
@@ -367,7 +395,8 @@ func ruleReorderGuard(p *Prog, r *Result) {
 				}
 			}
 		}
-		for i, st := range stores {
+		for i, rs := range stores {
+			st := rs.st
 			al, ok := stripConv(st.Val).(*ssa.Alloc)
 			if !ok || typeName(al.Type()) != "BinaryOpExpr" {
 				continue
@@ -401,9 +430,9 @@ func ruleReorderGuard(p *Prog, r *Result) {
 				if lok && rok && lo != nil && ro != nil && lo.Obj().Name() == "BinaryOpExpr" && ro.Obj().Name() == "BinaryOpExpr" {
 					switch storedField {
 					case "Right": // (a op c1) op c2  =>  a op (c1 op c2): new.Left = inner.Right, new.Right = outer.Right
-						okOrder = lf == "Right" && lb != e && rf == "Right" && rb == e
+						okOrder = lf == "Right" && cellRoot(lb) != e && rf == "Right" && cellRoot(rb) == e
 					case "Left": // c1 op (c2 op a)  =>  (c1 op c2) op a: new.Left = outer.Left, new.Right = inner.Left
-						okOrder = lf == "Left" && lb == e && rf == "Left" && rb != e
+						okOrder = lf == "Left" && cellRoot(lb) == e && rf == "Left" && cellRoot(rb) != e
 					}
 				}
 			}
@@ -522,4 +551,54 @@ func ruleFoldFlags(p *Prog, r *Result) {
 		}
 	}
 	r.floor("flags of the Boolean simplifier", n, 2)
+}
+
+// cellRoot resolves a variable captured by a closure: a load from the heap cell of a captured
+// variable (in the declaring function or, through the free variable, in the closure) stands for
+// the single value stored into that cell, when there is exactly one store.
+func cellRoot(v ssa.Value) ssa.Value {
+	for depth := 0; depth < 4; depth++ {
+		ld, ok := v.(*ssa.UnOp)
+		if !ok || ld.Op != token.MUL {
+			return v
+		}
+		var cell *ssa.Alloc
+		switch x := ld.X.(type) {
+		case *ssa.Alloc:
+			cell = x
+		case *ssa.FreeVar:
+			fn := x.Parent()
+			par := fn.Parent()
+			if par == nil {
+				return v
+			}
+			idx := -1
+			for i, fv := range fn.FreeVars {
+				if fv == x {
+					idx = i
+				}
+			}
+			allInstrs(par, func(in ssa.Instruction) {
+				if mc, ok := in.(*ssa.MakeClosure); ok && mc.Fn == ssa.Value(fn) && idx >= 0 && idx < len(mc.Bindings) {
+					if al, ok := mc.Bindings[idx].(*ssa.Alloc); ok {
+						cell = al
+					}
+				}
+			})
+		}
+		if cell == nil || !cell.Heap {
+			return v
+		}
+		var stored []ssa.Value
+		for _, ref := range *cell.Referrers() {
+			if st, ok := ref.(*ssa.Store); ok && st.Addr == ssa.Value(cell) {
+				stored = append(stored, st.Val)
+			}
+		}
+		if len(stored) != 1 {
+			return v
+		}
+		v = stored[0]
+	}
+	return v
 }
